@@ -26,10 +26,8 @@ import PromModel.Tsdb.SnapshotMm
       two acknowledged values for one (series, timestamp) — possible between an in-order and an
       out-of-order chunk — admit either; samples appended inside an earlier deletion may or may not
       show; after CleanTombstones nothing is demanded (C01's F30);
-    * a clean shutdown + start from its snapshot keeps every stored exemplar (`exemplar-lost`;
-      `exemplar-lost-series-left-head` when all samples of the exemplar's series were acknowledged
-      before the last compaction: ChunkSnapshot deliberately skips exemplars of series that are no
-      longer in the head, the WAL replay keeps them - a listed finding).
+    * exemplars lost by a snapshot start are NOT judged (the statement bounds restored exemplars only
+      from above); ChunkSnapshot skipping exemplars of series that left the head is an observation.
 -/
 namespace Prom.Db.Msnap
 open Prom.Intervals Prom.Db Prom.Db.Ro Prom.Db.Snap
@@ -166,17 +164,11 @@ def St.step (st : St) (k : Nat) (op out : String) : Except String St :=
         (checkRows closed MinI64 MaxI64 pre).map fun w => viol w "pre" k op s!"{ctx} got={kv m "pre"}",
         (checkRows closed a b ra).map fun w => viol w "a" k op s!"{ctx} got={kv m "a"}",
         (checkRows closed a b rb).map fun w => viol w "b" k op s!"{ctx} got={kv m "b"}",
-        if mode = "clean" ∧ kv m "use" = "loaded" then
-          let lost := exMinus (kv m "preex") (kv m "aex")
-          if lost.isEmpty then none
-          else if lost.all (fun e => match exSeries e with
-                                     | some i => st.oldSer.contains i && !st.freshSer.contains i
-                                     | none => false) then
-            -- ChunkSnapshot writes an exemplar only if its series is still in the head ("It is possible
-            -- that exemplar refers to some old series. We discard such exemplars."); the WAL replay keeps it
-            some (viol "exemplar-lost-series-left-head" "a" k op s!"{ctx} lost={",".intercalate lost} bex={kv m "bex"} preex={kv m "preex"}")
-          else some (viol "exemplar-lost" "a" k op s!"{ctx} lost={",".intercalate lost} aex={kv m "aex"} preex={kv m "preex"}")
-        else none] with
+        -- NOTE: an exemplar stored before the shutdown and missing after a snapshot start is NOT judged:
+        -- the statement only bounds the restored exemplars from above ("restores only exemplars that were
+        -- stored before the shutdown"). Observation (no alarm): ChunkSnapshot skips exemplars whose series
+        -- has left the head, the WAL replay keeps them (corpus/C23/msnap-exemplar-series-left-head.ops).
+        none] with
       | some v => .error v
       | none => .ok st'
     | _, _, _, _ => .error (viol "bad-observation" "-" k op s!"{out}")
